@@ -311,13 +311,16 @@ func handshake(l *loop, mng types.TLSContextManager, ccfg *gotls.Config) (peer [
 		}
 		done <- err
 	}()
+	ccfg = ccfg.Clone()
+	ccfg.VerifyPeerCertificate = func(rawCerts [][]byte, _ [][]*x509.Certificate) error {
+		if len(rawCerts) > 0 {
+			peer = rawCerts[0]
+		}
+		return nil
+	}
 	client := gotls.Client(cc, ccfg)
 	cerr = client.Handshake()
 	if cerr == nil {
-		st := client.ConnectionState()
-		if len(st.PeerCertificates) > 0 {
-			peer = st.PeerCertificates[0].Raw
-		}
 		b := make([]byte, 1)
 		client.Read(b)
 	} else {
@@ -848,23 +851,85 @@ func classifyConn(r net.Conn, err error, sc net.Conn) (string, bool) {
 
 var peerKinds = []string{"none", "self", "other", "right", "expired", "stolen"}
 
+var peerCerts map[string]*gotls.Certificate
+
+func peersInit() {
+	if peerCerts != nil {
+		return
+	}
+	right := leaf(rightCA, "client.right", []string{"client.right"}, false)
+	s := leaf(nil, "client.self", nil, false)
+	o := leaf(otherCA, "client.other", nil, false)
+	e := leaf(rightCA, "client.expired", nil, true)
+	peerCerts = map[string]*gotls.Certificate{
+		"self":    {Certificate: [][]byte{s.der}, PrivateKey: s.key},
+		"other":   {Certificate: [][]byte{o.der}, PrivateKey: o.key},
+		"right":   {Certificate: [][]byte{right.der}, PrivateKey: right.key},
+		"expired": {Certificate: [][]byte{e.der}, PrivateKey: e.key},
+		// the genuine certificate with somebody else's key
+		"stolen": {Certificate: [][]byte{right.der}, PrivateKey: o.key},
+	}
+}
+
+// withPeer makes the reference client present the peer kind's certificate whatever CA names the server advertises.
+func withPeer(ccfg *gotls.Config, pk string) {
+	if pk == "none" {
+		return
+	}
+	cert := peerCerts[pk]
+	ccfg.GetClientCertificate = func(*gotls.CertificateRequestInfo) (*gotls.Certificate, error) { return cert, nil }
+}
+
+// runPolicyHandshake: selection and client authentication together — every context has its own
+// require_client_cert / verify_client flags, the ClientHello selects one, the peer presents a certificate of a given
+// kind: the context that is selected and the handshake result are compared.
+func runPolicyHandshake(c *hx.Ctx, g *gen, l *loop, mode int) {
+	peersInit()
+	bases := g.bases()
+	cs := g.contexts(bases, mode == 2, false)
+	if len(cs) == 0 {
+		return
+	}
+	flags := make([][2]bool, len(cs))
+	var ft []string
+	for i := range cs {
+		flags[i] = [2]bool{g.r.Bool(), g.r.Bool()}
+		ft = append(ft, b01(flags[i][0])+b01(flags[i][1]))
+	}
+	mng, err := buildManager(cs, false, func(i int, t *v2.TLSConfig) {
+		t.RequireClientCert, t.VerifyClient, t.CACert = flags[i][0], flags[i][1], rightCA.pem
+	})
+	if err != nil {
+		c.Count("hsp.build-error")
+		return
+	}
+	for k := 0; k < 3; k++ {
+		sni := g.sni(bases, cs, true)
+		protos := g.protos(true)
+		pk := g.r.PickS(peerKinds)
+		ccfg := &gotls.Config{ServerName: sni, NextProtos: protos, InsecureSkipVerify: true}
+		if g.r.Bool() {
+			ccfg.MaxVersion = gotls.VersionTLS12
+		}
+		withPeer(ccfg, pk)
+		peer, _, serr := handshake(l, mng, ccfg)
+		idx := "err"
+		if peer != nil {
+			idx = whichCert(cs, peer)
+		}
+		res := "ok"
+		if serr != nil {
+			res = "fail"
+		}
+		cls := class(cs, sni, protos)
+		c.Emit("C13", fmt.Sprintf("hsp %s %s %s %s %s %s", cls, ctxsTok(cs), esc(sni), escList(protos), strings.Join(ft, "+"), pk), idx+" "+res)
+		c.Count("hsp.peer=" + pk + "/" + res)
+	}
+}
+
 // runTrustServer: the trust matrix of the server side through real handshakes.
 func runTrustServer(c *hx.Ctx, g *gen, l *loop, reps int) {
-	right := leaf(rightCA, "client.right", []string{"client.right"}, false)
-	peers := map[string]*gotls.Certificate{
-		"self":    {Certificate: [][]byte{leaf(nil, "client.self", nil, false).der}},
-		"other":   {},
-		"right":   {Certificate: [][]byte{right.der}, PrivateKey: right.key},
-		"expired": {},
-		"stolen":  {Certificate: [][]byte{right.der}},
-	}
-	s := leaf(nil, "client.self", nil, false)
-	peers["self"] = &gotls.Certificate{Certificate: [][]byte{s.der}, PrivateKey: s.key}
-	o := leaf(otherCA, "client.other", nil, false)
-	peers["other"] = &gotls.Certificate{Certificate: [][]byte{o.der}, PrivateKey: o.key}
-	e := leaf(rightCA, "client.expired", nil, true)
-	peers["expired"] = &gotls.Certificate{Certificate: [][]byte{e.der}, PrivateKey: e.key}
-	peers["stolen"].PrivateKey = o.key
+	peersInit()
 	for _, req := range []bool{false, true} {
 		for _, ver := range []bool{false, true} {
 			mng, err := buildManager([]*ctxSpec{{kind: kStatic, cn: "server.test", sans: []string{"server.test"}}}, false, func(i int, t *v2.TLSConfig) {
@@ -880,11 +945,7 @@ func runTrustServer(c *hx.Ctx, g *gen, l *loop, reps int) {
 					if ver12 {
 						ccfg.MaxVersion = gotls.VersionTLS12
 					}
-					if pk != "none" {
-						cert := peers[pk]
-						// present the certificate whatever CA names the server advertises
-						ccfg.GetClientCertificate = func(*gotls.CertificateRequestInfo) (*gotls.Certificate, error) { return cert, nil }
-					}
+					withPeer(ccfg, pk)
 					_, _, serr := handshake(l, mng, ccfg)
 					out := "ok"
 					if serr != nil {
@@ -1016,5 +1077,8 @@ func Run(c *hx.Ctx) {
 	}
 	for i := 0; i < c.N(400, 1700); i++ {
 		runSelect(c, g, l, true, modeOf(i))
+	}
+	for i := 0; i < c.N(300, 1500); i++ {
+		runPolicyHandshake(c, g, l, modeOf(i))
 	}
 }
